@@ -537,7 +537,7 @@ def ladder(skel, tier, reduced=False):
         out += [["ins", r, v] for v in (["A"] + (["'"] if full else []))]
         out.append(["hetero", r, 1])
     for a in range(n):
-        out += [["atom_name", a, v] for v in (["O5'", 'C"1', "N 1", "_X"] + (["'A'", ""] if full else []))]
+        out += [["atom_name", a, v] for v in (["O5'", 'C"1', "N 1", "_X", "O' 1"] + (["'A'", "", 'C" 1'] if full else []))]
         out += [["element", a, v] for v in ["FE", ""]]
         axes = range(3) if (full and a == 0) else [a % 3]
         for ax in axes:
@@ -548,7 +548,7 @@ def ladder(skel, tier, reduced=False):
     out += [["atom_id", None, "rev"], ["atom_id", None, "neg"]]
     out += [["b_factor", None, "vals"], ["b_factor", None, "nan"]]
     out += [["occupancy", None, "vals"], ["charge", None, "vals"]]
-    out += [["extra", None, "plain"], ["extra", None, "awk"], ["bonds", None, "path"]]
+    out += [["extra", None, "plain"], ["extra", None, "awk"], ["extra", None, "awk2"], ["bonds", None, "path"]]
     return out
 
 
@@ -558,7 +558,7 @@ def dev_class(dev):
     if f in ("chain", "res_name", "atom_name", "ins", "element"):
         lab = {"": "empty", "AB": "two_chars", "a'": "prime", '"q': "leading_dquote", "x y": "space",
                "LIG": "ligand", 'X"Y': "dquote", "A B": "space", "ABCDEFGH": "long", "A": "letter", "'": "squote",
-               "O5'": "prime", 'C"1': "dquote", "N 1": "space", "_X": "leading_underscore", "'A'": "squoted",
+               "O5'": "prime", 'C"1': "dquote", "N 1": "space", "_X": "leading_underscore", "'A'": "squoted", "O' 1": "prime_space", 'C" 1': "dquote_space",
                "FE": "two_chars"}.get(v, "other")
     elif f == "res_id":
         lab = {0: "zero", -3: "negative", 10000: "five_digits", -1: "minus_one", 2147483647: "int32_max"}.get(v, "other")
@@ -630,7 +630,8 @@ def apply_devs(skel, pal, devs):
         elif f == "charge":
             spec["opt"]["charge"] = [-2, 0, 2, 1][:n]
         elif f == "extra":
-            spec["extra"] = (["x", "yy", "x", "z9"] if v == "plain" else ["a b", "'q", "", 'd"q'])[:n]
+            spec["extra"] = {"plain": ["x", "yy", "x", "z9"], "awk": ["a b", "'q", "", 'd"q'],
+                             "awk2": ["5' end", 'd" q', "a'b c'd", 'e"f g"h']}[v][:n]
         elif f == "bonds":
             spec["bonds"] = [[a, a + 1, 1] for a in range(n - 1)] if v == "path" else []
     if not spec["stack"]:
